@@ -34,9 +34,12 @@ def _region_strategy(tier):
     # sizes over nine decades INDEPENDENTLY: axis ratios up to 1:1e9
     leaf = G.simple_pixel(sz, max_ratio=1e9)
     small_leaf = G.simple_pixel(G.sizes(0.5, 50.0), cmode='near')
-    return st.one_of(leaf, leaf, leaf, leaf,
-                     G.grid_polygon(),
-                     G.compound(small_leaf, max_depth=2))
+    usual = st.one_of(leaf, leaf, leaf, leaf,
+                      G.grid_polygon(),
+                      G.compound(small_leaf, max_depth=2))
+    # one case in eighty: a finely digitised outline (over a thousand vertices)
+    return st.integers(0, 79).flatmap(
+        lambda k: G.dense_polygon() if k == 0 else usual)
 
 
 def _flip_include(spec):
